@@ -388,6 +388,15 @@ def impl(c):
         return guarded(lambda: int(putils.chooseClosestTime(float(c["t"]), f(c["a"]), f(c["b"]))))
     if op == "find":
         wv = mkwav(c["hex"], c["w"], c["rate"])
+        if (len(c["hex"]) // (2 * c["w"])) % 2 == 1 and len(c["hex"]) > 0:
+            # every other recording has a past: the Wav first held other audio of the same length (every sample's lowest
+            # bit flipped... i.e. the bytes XOR 0x55), was searched once, and was then given the real audio in place with
+            # replaceSegment (round 3, C18-mutE: a cache of unpacked samples that a length-preserving edit leaves stale)
+            real = bytes.fromhex(c["hex"])
+            wv = mkwav(bytes(b ^ 0x55 for b in real).hex(), c["w"], c["rate"])
+            guarded(lambda: wv.findNearestZeroCrossing(c["t"]) if c.get("step") is None else wv.findNearestZeroCrossing(c["t"], c["step"]))
+            wv.replaceSegment(0.0, wv.duration, real)
+            assert wv.frames == real
         if c.get("step") is None:
             return guarded(lambda: wv.findNearestZeroCrossing(c["t"]))
         return guarded(lambda: wv.findNearestZeroCrossing(c["t"], c["step"]))
